@@ -3,6 +3,9 @@
 set -u
 patch=$(readlink -f "$1"); shift
 cd /verif
+# evidence of runs against a patched /repo must not replace the evidence of the real tree
+export VERIF_EVIDENCE_DIR=/tmp/seedtest-evidence
+mkdir -p $VERIF_EVIDENCE_DIR
 if ! git -C /repo diff --quiet; then echo "/repo has uncommitted changes"; exit 2; fi
 if ! git -C /repo apply "$patch"; then echo "patch does not apply"; exit 2; fi
 trap 'git -C /repo checkout -- . ' EXIT
